@@ -17,7 +17,7 @@ RULE = ('Integer (div_floor, mod_floor, div_rem, div_mod_floor, gcd, lcm, is_mul
         'with degrees 1..8, 40, 63..65, BITS-1..BITS+1, u32::MAX and random), Euclid, CheckedEuclid, Signed, PrimInt, Bounded, '
         'Zero/One, Num, Pow, MulAdd(Assign) and the Checked/Wrapping/Saturating/Overflowing forwarders, all called through the '
         'traits; the same calls on the Rust primitives (num_traits/num_integer own impls) calibrate the model. Operands: all sign '
-        'combinations with zero and non-zero remainders, gcd of multiples / powers of two / zero / MIN, r^n and r^n+-1 for the roots, '
+        'combinations with zero and non-zero remainders, gcd of multiples / powers of two / zero / MIN, the cross product of the primitive-type bounds (+-2^k, +-(2^k+-1), k in 7..128), r^n and r^n+-1 for the roots, '
         'values above 2^128 (Newton path), degrees where s^(n-1) exceeds the width. Non-trivial: negative operand with non-zero '
         'remainder, root argument at or next to a perfect power, Newton path, degree > 3, lcm/gcd of non-coprime operands; '
         'distinct = distinct request lines')
@@ -60,6 +60,17 @@ def root_degree(cfg, rng):
 
 def requests(cfg, rng, n, tier, part, nparts, st):
     n1 = max(1, n // 6)
+    # ---- cross product of the primitive-type bounds (fast paths through u64 / u128 / i128 switch exactly there)
+    if cfg.bits > 64 and (tier == 'thorough' or cfg.name in ('i64x3', 'u64x3', 'i8x17', 'u8x17', 'i32x6', 'u16x8', 'i64x5')):
+        vals = [0, 1, -1]
+        for k in (7, 8, 31, 32, 63, 64, 127, 128):
+            for m in ((1 << k), (1 << k) - 1, (1 << k) + 1):
+                vals += [m, -m]
+        vals = sorted(set(cfg.wrap(v) for v in vals))
+        allp = [(a, b) for a in vals for b in vals]
+        lo_, hi_ = (len(allp) * part // nparts, len(allp) * (part + 1) // nparts)
+        for a, b in allp[lo_:hi_]:
+            yield 'int', (a, b, 0)
     # ---- int group: operands from the division generator and gcd-specific families
     k = 0
     for g, a in c03.requests(cfg, rng, n1 * 2, tier, 0, 1, {'exhaustive': []}, exhaustive=False):
@@ -82,8 +93,8 @@ def requests(cfg, rng, n, tier, part, nparts, st):
             a = 1 << rng.randrange(cfg.bits - 1)
             b = (1 << rng.randrange(cfg.bits - 1)) * rng.choice((1, 3, 5))
         elif r < 0.75:
-            a = rng.choice((0, cfg.min, cfg.max, 1, -1))
-            b = rng.choice((0, cfg.min, cfg.max, gen.value(cfg, rng), 2, -2))
+            a = rng.choice((0, cfg.min, cfg.max, 1, -1, gen.boundary(cfg, rng), gen.boundary(cfg, rng)))
+            b = rng.choice((0, cfg.min, cfg.max, gen.value(cfg, rng), 2, -2, a, 0, gen.boundary(cfg, rng)))
         else:
             a, b = gen.short(cfg, rng), gen.short(cfg, rng)
         if cfg.signed:
